@@ -59,8 +59,8 @@ def run(ctx: Ctx) -> Outcome:
     if ctx.replay:
         return rtcheck.replay_outcome('C14', ctx, also=('C07',))
     scs = scenarios(ctx)
-    model_cov, extra_scs, notes = rtmodel.model_check_and_generate('C14', ctx)
-    out = rtcheck.validate('C14', scs + extra_scs, ctx, also=('C07',), extra_cov=model_cov)
+    model_cov, notes = {}, []
+    out = rtcheck.validate('C14', scs, ctx, also=('C07',), extra_cov=model_cov)
     out.notes += notes
     # fault_enumeration evidence keys
     crashed = sum(1 for s in scs if s.get('crash'))
